@@ -139,8 +139,15 @@ func checkZTree(v memdb.VerifValue) string {
 func DiffState(ms ModelState, srv *impl.Srv, shift int64) string {
 	dump := memdb.VerifDump(srv.Mgr.DBs[0])
 	byKey := map[string]memdb.VerifValue{}
+	objs := map[uintptr]string{}
 	for _, v := range dump {
 		byKey[v.Key] = v
+		if v.Obj != 0 {
+			if other, dup := objs[v.Obj]; dup {
+				return fmt.Sprintf("structure: keys %q and %q share one %s object (a command on either changes both)", other, v.Key, v.Type)
+			}
+			objs[v.Obj] = v.Key
+		}
 	}
 	seen := map[string]bool{}
 	for _, mk := range ms {
@@ -292,8 +299,16 @@ func StructureOK(srv *impl.Srv) string {
 	db := srv.Mgr.DBs[0]
 	dump := memdb.VerifDump(db)
 	keys := map[string]bool{}
+	objs := map[uintptr]string{}
 	for _, v := range dump {
 		keys[v.Key] = true
+		if v.Obj != 0 {
+			// every key owns its value: two keys holding ONE list / hash / set / sorted set / stream object change together
+			if other, dup := objs[v.Obj]; dup {
+				return fmt.Sprintf("keys %q and %q share one %s object (a command on either changes both)", other, v.Key, v.Type)
+			}
+			objs[v.Obj] = v.Key
+		}
 		switch v.Type {
 		case "list":
 			if !v.ListFwdOK || !v.ListBckOK || len(v.ListFwd) != v.ListLen || len(v.ListBack) != v.ListLen {
